@@ -291,6 +291,19 @@ End Chunks.
 Definition cs_chunked_stmts (own : bool) (n : nat) (f : N -> cs_stmt) (ids : list N) : list cs_stmt :=
   map f (concat (if own then cs_chunks n ids else cs_chunks_whole_bound n ids)).
 
+(* ---- a FLAT argument list cut into chunks ---- *)
+(* writeOps.CreateMessages binds the flags of a batch as one flat list (message id, flag, message id, flag, ...) and cuts
+   THAT list into chunks of db.ChunkLimit VALUES; the statement of a chunk has len(chunk)/k groups "(?,..,?)" of k
+   question marks.  [rows] = the rows (k values each).  What every statement should receive: whole rows — the chunks
+   of the row list (n/k rows each), flattened. *)
+Definition cs_row_chunks {A : Type} (k n : nat) (rows : list (list A)) : list (list A) :=
+  map (@concat A) (cs_chunks (Nat.div n k) rows).
+
+(* the flat chunk loops found in the source (Gen/FactsConnUpdates.v flat_chunk_groups): (question marks per group, the
+   K of len(chunk)/K, chunk size).  Acceptable: the group has K question marks and K divides the chunk size. *)
+Definition cs_flat_groups_ok (l : list (N * N * N)) : bool :=
+  forallb (fun g => let '(q, k, n) := g in (q =? k) && (0 <? k) && (n mod k =? 0)) l.
+
 (* ---- inside store.Set: the cache file is written piece by piece ---- *)
 (* store/disk.go Set opens the file and issues one write call for the header, one for the nonce and one per sealed block;
    the process can die between two calls and inside one, so [pieces] is ANY way of cutting the new file content into
